@@ -71,11 +71,14 @@ impl<BS: BlockSizes> BlockCipherEncClosure for Closure<'_, BS> {
 
         ecb_enc(cipher, blocks.reborrow());
 
-        if tail.is_empty() && blocks.len() > 1 {
-            let blocks = blocks.get_out();
-            let (last, rest) = blocks.split_last_mut().unwrap();
-            let (penultimate, _) = rest.split_last_mut().unwrap();
-            core::mem::swap(penultimate, last);
+        if tail.is_empty() {
+            // a one-block message is plain ECB: there is no penultimate block to exchange with
+            if blocks.len() > 1 {
+                let blocks = blocks.get_out();
+                let (last, rest) = blocks.split_last_mut().unwrap();
+                let (penultimate, _) = rest.split_last_mut().unwrap();
+                core::mem::swap(penultimate, last);
+            }
         } else {
             let last_block = blocks.get_out().last_mut().unwrap();
 
@@ -99,11 +102,14 @@ impl<BS: BlockSizes> BlockCipherDecClosure for Closure<'_, BS> {
 
         ecb_dec(cipher, blocks.reborrow());
 
-        if tail.is_empty() && blocks.len() > 1 {
-            let blocks = blocks.get_out();
-            let (last, rest) = blocks.split_last_mut().unwrap();
-            let (penultimate, _) = rest.split_last_mut().unwrap();
-            core::mem::swap(penultimate, last);
+        if tail.is_empty() {
+            // a one-block message is plain ECB: there is no penultimate block to exchange with
+            if blocks.len() > 1 {
+                let blocks = blocks.get_out();
+                let (last, rest) = blocks.split_last_mut().unwrap();
+                let (penultimate, _) = rest.split_last_mut().unwrap();
+                core::mem::swap(penultimate, last);
+            }
         } else {
             let last_block = blocks.get_out().last_mut().unwrap();
 
